@@ -73,6 +73,8 @@ ALL = [
         '<w:commentRangeStart w:id="1"/>', r('«5»x'), link('r:id="rId9"', r('«6»l2 '), '<w:commentRangeEnd w:id="1"/>', r('«7»more'))), docrels=LINK, comments=COM(0) + COM(1, 'two'))),
     ('P33-text-box-anchored-inside-a-hyperlink', ['C19'], lambda: docx(p(r('«9»see '), link('r:id="rId9"', r('«1»q ', '<w:b/>'),
         '<w:r><w:t xml:space="preserve">«2»uni </w:t><w:pict><v:shape><v:textbox><w:txbxContent>' + p(r('«3»boxed ')) + '</w:txbxContent></v:textbox></v:shape></w:pict></w:r>'), r('«4» end')), docrels=LINK)),
+    ('P34-markers-in-a-link-merged-with-its-neighbour', ['C12'], lambda: docx(p(r('«1»see '), link('w:anchor="bm"', '<w:commentRangeStart w:id="0"/>', '<w:commentRangeEnd w:id="0"/>', '<w:r><w:commentReference w:id="0"/></w:r>'),
+        link('w:anchor="bm"', r('«2»target')), r('«3» end')), comments=COM(0))),
     # constructs the line-coverage measurement (harness/tools/cover.py) showed no generated case reached
     ('cov-math-text-outside-omath', ['C13', 'C01', 'C03', 'C07'], lambda: docx(p(r('«1»a'), '<m:r><m:t>«2»x&lt;y</m:t></m:r>', r('«3»b', '<w:b/>')))),
     ('cov-two-comments-parts', ['C12', 'C13'], lambda: docx(p('<w:commentRangeStart w:id="0"/>', r('«1»a'), '<w:commentRangeEnd w:id="0"/>', r('«2»b')), comments=COM(0, 'first'),
